@@ -40,9 +40,13 @@ def make_world(g, tag):
             ph = r.choice(docs.PLACEHOLDERS)
             steps.append((docs.any_matcher([gp], ph), fp, json.loads(ph), False))
             set_path(cur, fp, json.loads(ph))
-        elif k < 0.75 and docs.go_type(v):
+        elif k < 0.65 and docs.go_type(v):
             steps.append((docs.type_matcher([gp], docs.go_type(v)), fp, docs.type_placeholder(v), False))
             set_path(cur, fp, docs.type_placeholder(v))
+        elif k < 0.75 and docs.go_type(v) and docs.go_type(v) != 'string':
+            # paths of one matcher take effect left to right: the second `gp` finds the string
+            # placeholder written by the first, so a type error must be reported
+            steps.append((docs.type_matcher([gp, gp], docs.go_type(v)), None, None, True))
         elif k < 0.9:
             ph = r.choice(docs.PLACEHOLDERS)
             steps.append((docs.custom_matcher(gp, True, ph), fp, json.loads(ph), False))
